@@ -3,7 +3,9 @@ package main
 import (
 	"crypto/sha256"
 	"encoding/hex"
+	"errors"
 	"fmt"
+	"io"
 	"os"
 	"reflect"
 	"runtime"
@@ -62,9 +64,9 @@ func (c12Prop) Race() bool    { return true }
 
 func (c12Prop) Count(tier string) int {
 	if tier == "thorough" {
-		return 100000
+		return 250000
 	}
-	return 500
+	return 1500
 }
 
 func (c12Prop) Rule() string {
@@ -83,7 +85,7 @@ func (c12Prop) Assumptions() []string {
 
 var c12Types = []string{"Flat", "Nested", "Ptrs", "Slices", "OneMap", "Timed", "Padded", "Omit", "Nulls", "PtrSlices", "NullPtrs"}
 
-var c12OpNames = []string{"build", "build", "register", "register", "decode", "decode", "decodeproj", "decodeproj", "encode", "encode", "readfile", "readfile", "closebanks", "schema", "fromstring", "decoderef", "decoderef", "parsetime", "parsetime", "encoder", "regshared", "regshared"}
+var c12OpNames = []string{"build", "build", "register", "register", "decode", "decode", "decodeproj", "decodeproj", "encode", "encode", "readfile", "readfile", "closebanks", "schema", "fromstring", "decoderef", "decoderef", "parsetime", "parsetime", "encoder", "regshared", "regshared", "decodebad", "decodebad", "timelong", "timelong"}
 
 func (c12Prop) Generate(seed uint64, idx int, tier string) *Plan {
 	r := NewRng(seed, uint64(idx)<<8|0x12)
@@ -114,7 +116,7 @@ func (c12Prop) Generate(seed uint64, idx int, tier string) *Plan {
 	if r.P(1, 8) {
 		// parallel burst (see C12Plan.Burst): few operation kinds, many repeats
 		pl.Burst = r.PickInt([]int{30, 100})
-		kinds := [][]string{{"register"}, {"parsetime"}, {"register", "build"}, {"parsetime", "encode"}, {"register", "parsetime"}, {"build", "schema"}, {"decode", "decodeproj"}, {"regshared"}, {"regshared", "build"}}[r.Intn(9)]
+		kinds := [][]string{{"register"}, {"parsetime"}, {"register", "build"}, {"parsetime", "encode"}, {"register", "parsetime"}, {"build", "schema"}, {"decode", "decodeproj"}, {"regshared"}, {"regshared", "build"}, {"decodebad"}, {"decodebad", "decode"}, {"timelong"}, {"timelong", "parsetime"}}[r.Intn(13)]
 		if kinds[0] == "parsetime" {
 			pl.Burst = r.PickInt([]int{1000, 5000}) // a timestamp parse costs about a microsecond
 		}
@@ -521,6 +523,23 @@ func (c regCodec) Write(w *avro.WriteBuf, p unsafe.Pointer) {
 	c.Int64Codec.Write(w, unsafe.Pointer(&v))
 }
 
+// TimeLongs: times carried as long/int under the logical types the time codec
+// accepts (each logical type has its own scale).
+type TimeLongs struct {
+	A time.Time  `json:"a"`
+	B time.Time  `json:"b"`
+	C time.Time  `json:"c"`
+	D time.Time  `json:"d"`
+	E *time.Time `json:"e"`
+}
+
+const timeLongsSchema = `{"type":"record","name":"TL","fields":[` +
+	`{"name":"a","type":{"type":"long","logicalType":"timestamp-micros"}},` +
+	`{"name":"b","type":{"type":"long","logicalType":"timestamp-millis"}},` +
+	`{"name":"c","type":"long"},` +
+	`{"name":"d","type":{"type":"int","logicalType":"date"}},` +
+	`{"name":"e","type":["null",{"type":"long","logicalType":"timestamp-millis"}]}]}`
+
 type TimeOnly struct {
 	T time.Time `json:"t"`
 }
@@ -543,6 +562,7 @@ type c12Env struct {
 	ftypes      []reflect.Type    // target type per file
 	chunks      []ChunkSpec       // per goroutine
 	timeC       avro.Codec        // shared codec for TimeOnly
+	timeLongC   avro.Codec        // shared codec for TimeLongs
 	chans       []chan *avro.ResourceBank
 	ng          int
 }
@@ -636,6 +656,21 @@ func (env *c12Env) execOp(g int, op C12Op, alone bool) (res string) {
 		s := fmt.Sprintf("decoded err=%v %s", err, describeAll([]reflect.Value{out}))
 		rb.ExtractResourceBank().Close()
 		return s
+	case "decodebad":
+		// a shared codec meets a torn record: the error it returns is this
+		// goroutine's own, and stays what it was while others fail too
+		vi := op.B % len(env.payloads[ti])
+		pay := env.payloads[ti][vi]
+		cut := pay[:(op.B/7)%max(len(pay), 1)]
+		out := reflect.New(d.Type).Elem()
+		rb := avro.NewReadBuf(cut)
+		err := env.codecs[ti].Read(rb, out.Addr().UnsafePointer())
+		first := errString(err)
+		rb.ExtractResourceBank().Close()
+		rb2 := avro.NewReadBuf(cut)
+		err2 := env.ecodecs[ti].Read(rb2, unsafe.Pointer(&Empty{}))
+		rb2.ExtractResourceBank().Close()
+		return fmt.Sprintf("decodebad cut=%d/%d err=%s later=%s skip-err=%s eof=%v", len(cut), len(pay), first, errString(err), errString(err2), errors.Is(err, io.EOF) || errors.Is(err, io.ErrUnexpectedEOF))
 	case "decodeproj":
 		// shared codecs whose target lacks fields: the skip paths of a shared codec
 		vi := op.B % len(env.payloads[ti])
@@ -772,6 +807,37 @@ func (env *c12Env) execOp(g int, op C12Op, alone bool) (res string) {
 		rb.ExtractResourceBank().Close()
 		_, off := out.T.Zone()
 		return fmt.Sprintf("time err=%v unixnano=%d off=%d", err, out.T.UnixNano(), off)
+	case "timelong":
+		// times as scaled integers: with the shared codec, or with a codec this
+		// goroutine builds for itself from the schema text (in either order)
+		c := env.timeLongC
+		own := op.A%2 == 1
+		if own {
+			tls, err := avro.SchemaFromString(timeLongsSchema)
+			if err != nil {
+				return "timelong schema err: " + err.Error()
+			}
+			if c, err = tls.Codec(TimeLongs{}); err != nil {
+				return "timelong codec err: " + err.Error()
+			}
+		}
+		var payload []byte
+		payload = ref.AppendLong(payload, 1_600_000_000_000_000+int64(op.B)*1_000_003) // micros
+		payload = ref.AppendLong(payload, 1_500_000_000_000+int64(op.A)*1_009)         // millis
+		payload = ref.AppendLong(payload, 1_400_000_000_000_000_000+int64(op.B)*7)     // no logical type
+		payload = ref.AppendLong(payload, 18_000+int64(op.B%2000))                     // days
+		payload = ref.AppendLong(payload, 1)
+		payload = ref.AppendLong(payload, 1_300_000_000_000+int64(op.B)) // millis behind a pointer
+		var out TimeLongs
+		rb := avro.NewReadBuf(payload)
+		err := c.Read(rb, unsafe.Pointer(&out))
+		e := int64(-1)
+		if out.E != nil {
+			e = out.E.UnixNano()
+		}
+		res := fmt.Sprintf("timelong own=%v err=%v a=%d b=%d c=%d d=%d e=%d", own, err, out.A.UnixNano(), out.B.UnixNano(), out.C.UnixNano(), out.D.Unix(), e)
+		rb.ExtractResourceBank().Close()
+		return res
 	case "encoder":
 		if d.HasMultiMap || d.RefOnly {
 			d = typeByName("Flat")
@@ -893,6 +959,13 @@ func newC12Env(pl *C12Plan) (*c12Env, error) {
 	}
 	env.timeC, err = s.Codec(TimeOnly{})
 	if err != nil {
+		return nil, err
+	}
+	tls, err := avro.SchemaFromString(timeLongsSchema)
+	if err != nil {
+		return nil, err
+	}
+	if env.timeLongC, err = tls.Codec(TimeLongs{}); err != nil {
 		return nil, err
 	}
 	for g := 0; g < env.ng; g++ {
@@ -1180,6 +1253,15 @@ func clipN(s string, n int) string {
 func (c12Prop) ReplayAttempts(p *Plan) int {
 	if p.C12 != nil && p.C12.Burst > 0 {
 		return 40 // real parallelism: each attempt has only some probability of hitting the window
+	}
+	// the schedule replays exactly; the race detector's verdict on it has a
+	// small residue of chance (runtime-internal synchronisation, DESIGN §9)
+	return 5
+}
+
+func (c12Prop) MinimiseAttempts(p *Plan) int {
+	if p.C12 != nil && p.C12.Burst > 0 {
+		return 40
 	}
 	return 1
 }
